@@ -110,6 +110,90 @@ func runC13(r *Rec) {
 		}
 	}
 
+	// ---------- A2. the inflation schedule over chains of blocks: AllocateTokens (BeginBlocker) + EndBlocker (snapshot roll-over)
+	r.Mark("inflation schedule")
+	nChains, nBlk := 6, 60
+	if r.Tier == "thorough" {
+		nChains, nBlk = 80, 150
+	}
+	for ch := 0; ch < nChains; ch++ {
+		cc, _ := base.CacheContext()
+		rate, annual, period := rates[1+r.Rng.Intn(len(rates)-1)], annuals[r.Rng.Intn(len(annuals))], periods[r.Rng.Intn(len(periods))]
+		if ch%2 == 0 {
+			annual = "2.5" // an open annual gate: the period schedule itself is exercised
+		}
+		np := gk.GetNetworkProperties(cc)
+		np.InflationRate = sdk.MustNewDecFromStr(rate)
+		np.MaxAnnualInflation = sdk.MustNewDecFromStr(annual)
+		np.InflationPeriod = period
+		if err := gk.SetNetworkProperties(cc, np); err != nil {
+			r.Fail("C13/setup", "cannot set properties: "+err.Error(), nil)
+			continue
+		}
+		dk.SetYearStartSnapshot(cc, distrtypes.SupplySnapshot{SnapshotTime: 0, SnapshotAmount: sdkmath.ZeroInt()})
+		dk.SetPeriodicSnapshot(cc, distrtypes.SupplySnapshot{SnapshotTime: 0, SnapshotAmount: sdkmath.ZeroInt()})
+		now := t0
+		type pt struct {
+			t int64
+			a sdkmath.Int
+		}
+		var log []pt // (block time, supply at the end of the block): what a real snapshot can be
+		for b := 0; b < nBlk; b++ {
+			dt := []int64{6, 6, 3600, 86400, 86400 * 10, 86400 * 31, int64(period) + 1, int64(period)*3 + 7, 86400 * 100}[r.Rng.Intn(9)]
+			now += dt
+			bctx := cc.WithBlockTime(time.Unix(now, 0).UTC()).WithBlockHeight(int64(b + 2))
+			y0, p0 := dk.GetYearStartSnapshot(bctx), dk.GetPeriodicSnapshot(bctx)
+			su0 := bk.GetSupply(bctx, "ukex").Amount
+			var panicked interface{}
+			func() {
+				defer func() { panicked = recover() }()
+				dk.AllocateTokens(bctx, 0, 0, sdk.ConsAddress("unknown-proposer-xxxx"), nil)
+			}()
+			suMid := bk.GetSupply(bctx, "ukex").Amount
+			if panicked == nil {
+				func() {
+					defer func() { panicked = recover() }()
+					dk.EndBlocker(bctx)
+				}()
+			}
+			y1, p1 := dk.GetYearStartSnapshot(bctx), dk.GetPeriodicSnapshot(bctx)
+			su1 := bk.GetSupply(bctx, "ukex").Amount
+			out := fmt.Sprintf("%s %s %d %s %d", su1, y1.SnapshotAmount, y1.SnapshotTime, p1.SnapshotAmount, p1.SnapshotTime)
+			if panicked != nil {
+				out = "panic"
+			}
+			r.Op(fmt.Sprintf("mint infl-block %s %d %s %d %s %d %s %s %d 0", y0.SnapshotAmount, y0.SnapshotTime, p0.SnapshotAmount, p0.SnapshotTime, su0, now, annual, rate, period), out)
+			r.Case(fmt.Sprintf("chain%d/%d/%d", ch, b, dt), suMid.GT(su0))
+			r.Count(fmt.Sprintf("infl-block:minted=%v:rolled=%v", suMid.GT(su0), p1.SnapshotTime != p0.SnapshotTime))
+			if panicked != nil {
+				r.Fail("C13/inflation-block/panic", fmt.Sprint(panicked), nil)
+				break
+			}
+			log = append(log, pt{now, su1})
+			// ---- oracle: the stored period snapshot is the (time, supply) of a block end of this chain …
+			real := p1.SnapshotTime == 0
+			for _, e := range log {
+				if e.t == p1.SnapshotTime && e.a.Equal(p1.SnapshotAmount) {
+					real = true
+				}
+			}
+			if !real {
+				r.Fail("C13/inflation/period-snapshot-not-a-block-end", fmt.Sprintf("chain %d block %d (t=%d): stored period snapshot (time %d, amount %s) is not the time and end-of-block supply of any block produced", ch, b, now, p1.SnapshotTime, p1.SnapshotAmount), nil)
+			}
+			// … and this block's inflation kept supply within that snapshot grown pro rata (+1)
+			if suMid.GT(su0) && p0.SnapshotTime != 0 {
+				gap := now - p0.SnapshotTime
+				rd := sdk.MustNewDecFromStr(rate).BigInt()
+				num := sdkmath.NewIntFromBigInt(rd).Mul(p0.SnapshotAmount).MulRaw(gap)
+				den := sdkmath.NewInt(int64(period)).Mul(sdkmath.NewIntWithDecimal(1, 18))
+				bound := p0.SnapshotAmount.Add(num.Quo(den)).AddRaw(1)
+				if suMid.GT(bound) {
+					r.Fail("C13/allocate/above-pro-rata-bound", fmt.Sprintf("chain %d block %d: supply %s > bound %s", ch, b, suMid, bound), nil)
+				}
+			}
+		}
+	}
+
 	// ---------- B. UBI hard cap: real handler with 64-bit boundary amounts and periods
 	r.Mark("ubi hardcap")
 	h := ubi.NewApplyUpsertUBIProposalHandler(w.app.UbiKeeper, gk, w.app.SpendingKeeper)
@@ -216,13 +300,23 @@ func runC13(r *Rec) {
 				wrapped := false
 				tot := sdkmath.ZeroInt()
 				two64 := sdkmath.NewIntFromUint64(math.MaxUint64).AddRaw(1)
-				for _, rec := range w.app.UbiKeeper.GetUBIRecords(cc) {
-					prod := sdkmath.NewIntFromUint64(rec.Amount).MulRaw(31556952)
+				// the handler's own sum runs over the records stored BEFORE the upsert (the replaced one included) plus
+				// the proposed one: a wrap-around anywhere in that computation is the recorded finding
+				type ap struct{ a, p uint64 }
+				var terms []ap
+				for _, rc := range recs {
+					var ea, ep uint64
+					fmt.Sscanf(rc, "%d:%d", &ea, &ep)
+					terms = append(terms, ap{ea, ep})
+				}
+				terms = append(terms, ap{amount, period})
+				for _, t := range terms {
+					prod := sdkmath.NewIntFromUint64(t.a).MulRaw(31556952)
 					if prod.GTE(two64) {
 						wrapped = true
 					}
-					if rec.Period != 0 {
-						tot = tot.Add(prod.Quo(sdkmath.NewIntFromUint64(rec.Period)))
+					if t.p != 0 {
+						tot = tot.Add(prod.Quo(sdkmath.NewIntFromUint64(t.p)))
 						if tot.GTE(two64) {
 							wrapped = true
 						}
